@@ -568,3 +568,8 @@ Proof.
     + rewrite spc_rupd, sid_eqb_refl, spc_rupd, sid_eqb_refl, spc_pre_payload, sid_eqb_refl, tail_record. reflexivity.
     + intros j Hj. rewrite spc_rupd, (sid_neq _ _ Hj), spc_rupd, (sid_neq _ _ Hj), spc_pre_payload, (sid_neq _ _ Hj). reflexivity.
 Qed.
+
+(* what tools/gen/c12_recv_order.py reads from the tree with seeded/C05/seed3 applied is the order of the variant *)
+Example first_order_is_seed3 : CAP_ACK_NOW = true -> source_order first_order =
+  [(1, 10); (2, 0); (3, 11); (4, 12); (7, 20); (5, 13); (1, 10); (6, 21); (8, 22); (9, 23)].
+Proof. unfold source_order. intros ->. reflexivity. Qed.
